@@ -3,7 +3,7 @@ EXTENDS Cli
 C(v, dp, ip, ix, f, np) == [ver |-> v, dpad |-> dp, ipad |-> ip, idx |-> ix, full |-> f, npad |-> np]
 CliConts == { C(1, 0, 0, "none", FALSE, 0), C(2, 0, 0, "mh", FALSE, 0), C(2, 1, 7, "sorted", FALSE, 0), C(2, 59, 0, "none", FALSE, 0) }
 CliRoots == { <<>>, <<"b1">>, <<"b3", "b4">>, <<"b5">> }     \* b5: an identity CID as a root (and, in some inputs, stored as a block)
-CliIds   == {"b1", "b2", "b3", "b4", "b5", "b13", "b14"}
+CliIds   == {"b1", "b2", "b3", "b4", "b5", "b9", "b13", "b14"}     \* b9: a 20-byte digest (a second width group in `detach-index list`)
 FConts == { C(1, 0, 0, "none", FALSE, 0), C(2, 0, 0, "mh", FALSE, 0) }
 FRoots == { <<"b1">> }
 FIds   == {"b1", "b4", "b2"}
